@@ -2,6 +2,7 @@ package main
 
 import (
 	"fmt"
+	"go/constant"
 	"go/token"
 	"go/types"
 	"sort"
@@ -809,6 +810,34 @@ func checkC14(w *World, c *Check, tier string) {
 			}
 		}
 	}
+	if !stripsFragment {
+		// a hand-written scan: a byte of a string compared with '#'
+		for _, f := range clos {
+			for _, b := range f.Blocks {
+				for _, in := range b.Instrs {
+					bo, ok := in.(*ssa.BinOp)
+					if !ok || (bo.Op != token.EQL && bo.Op != token.NEQ) {
+						continue
+					}
+					for _, pair := range [][2]ssa.Value{{bo.X, bo.Y}, {bo.Y, bo.X}} {
+						var indexed ssa.Value
+						switch lk := unwrap(pair[0]).(type) {
+						case *ssa.Lookup:
+							indexed = lk.X
+						case *ssa.Index:
+							indexed = lk.X
+						}
+						k, isC := pair[1].(*ssa.Const)
+						if indexed != nil && isC && isStringish(indexed.Type()) && k.Value != nil && k.Value.Kind() == constant.Int {
+							if v, exact := constant.Int64Val(k.Value); exact && v == '#' {
+								stripsFragment = true
+							}
+						}
+					}
+				}
+			}
+		}
+	}
 	if stripsFragment {
 		c.ok("C14.fold", "fastpath-strips-fragment", w.FuncPos(eq), "the string fast path cuts the operands at '#'")
 	} else {
@@ -939,6 +968,33 @@ func checkC14Relation(w *World, c *Check, eq *ssa.Function, clos []*ssa.Function
 				if cal.Signature.Recv() != nil && isURL(cal.Signature.Recv().Type()) {
 					return x.Common().Args[0], cal.Name() + "()"
 				}
+				// a package helper handed the URL itself (cleanPath(u *url.URL) string): the component its results are cut from
+				if w.InPkg(cal) && cal.Blocks != nil {
+					var argV ssa.Value
+					comp, agree := "", true
+					for _, rb := range returnBlocks(cal) {
+						ret := rb.Instrs[len(rb.Instrs)-1].(*ssa.Return)
+						if len(ret.Results) != 1 {
+							agree = false
+							break
+						}
+						uv, cp := compOf(ret.Results[0], d+1)
+						pv, isParam := uv.(*ssa.Parameter)
+						if !isParam || cp == "" || (comp != "" && cp != comp) {
+							agree = false
+							break
+						}
+						for k, fp := range cal.Params {
+							if fp == pv && k < len(x.Common().Args) {
+								argV = x.Common().Args[k]
+							}
+						}
+						comp = cp
+					}
+					if agree && argV != nil && isURL(argV.Type()) {
+						return argV, comp
+					}
+				}
 				return compOf(x.Common().Args[0], d+1)
 			}
 		case *ssa.Convert:
@@ -954,6 +1010,14 @@ func checkC14Relation(w *World, c *Check, eq *ssa.Function, clos []*ssa.Function
 			cal := call.Common().StaticCallee()
 			if cal == nil {
 				continue
+			}
+			if rn := func() *types.Named {
+				if cal.Signature.Recv() == nil {
+					return nil
+				}
+				return namedOf(cal.Signature.Recv().Type())
+			}(); rn != nil && rn.Obj().Pkg() != nil && rn.Obj().Pkg().Path() == "net/url" && rn.Obj().Name() == "Values" && (cal.Name() == "Get" || cal.Name() == "Has") && cal.Name() == "Get" {
+				c.bad("C14.query", funcName(f)+":Values.Get", w.InstrPos(call), fmt.Sprintf("%s reads a query parameter with url.Values.Get, which yields the first value of a repeated key only: a decision taken from it depends on the order in which the values of that key are written (?tag=a&tag=b against ?tag=b&tag=a)", funcName(f)))
 			}
 			if cal.Signature.Recv() != nil && isURL(cal.Signature.Recv().Type()) {
 				switch cal.Name() {
@@ -1966,6 +2030,11 @@ func rewritesPath(fa *ssa.FieldAddr) string {
 				switch {
 				case (pkg == "path" || pkg == "path/filepath") && cal.Name() == "Clean":
 					visit(x, d+1)
+				case pkg == "net/url" && cal.Signature.Recv() == nil:
+					// URL.Path is the decoded path already: decoding (or encoding) it once more equates "%2541" with "A"
+					found = "net/url." + cal.Name()
+				case (pkg == "path" || pkg == "path/filepath") && (cal.Name() == "Base" || cal.Name() == "Dir" || cal.Name() == "Ext"):
+					found = pkg + "." + cal.Name()
 				case pkg == "strings":
 					switch cal.Name() {
 					case "EqualFold", "Compare", "Contains", "HasPrefix", "HasSuffix", "Index", "IndexByte", "Count":
@@ -2154,7 +2223,6 @@ func inlineMembershipScan(w *World, pr *prover, app *ssa.Function, b *ssa.BasicB
 	}
 	return false
 }
-
 
 // rawPathFolded: the value loaded from this URL.Path field reaches strings.EqualFold without having been cleaned, and
 // the other argument is not a constant.
